@@ -102,6 +102,18 @@ PROPS["C20"] = {
     "level_note": "Trusted: Kani/CBMC/cadical, the 15-line bit-string reference model; single-thread semantics of atomics.",
 }
 
+PROPS["C21"] = {
+    "enc": ["SideMetadataSpec::bzero_metadata", "bset_metadata", "bcopy_metadata_contiguous", "bulk_update_metadata", "zero_meta_bits", "set_meta_bits",
+            "ranges::break_bit_range", "memory::zero", "memory::set", "address_to_meta_address", "meta_byte_lshift"],
+    "sym": "log_num_of_bits 0..=2 (sub-byte harnesses) and 3..=6 (whole-byte harnesses), log_bytes_in_region 0..=22, spec offset < 2^40, first region and region count anywhere in a 24-byte (192-bit) table slice "
+           "(empty, inside one byte, unaligned both ends, aligned, ending at a byte boundary), all 48 window bytes (destination slice + source slice for bcopy)",
+    "bound": "Ranges of up to 192 one-bit fields / 24 metadata bytes; unwind 194 with unwinding assertions. 64-bit contiguous layout.",
+    "outside": "ranges longer than 24 metadata bytes (the middle part is one memset/memcpy of the whole-byte run); 32-bit chunked branch (not compiled)",
+    "assumptions": COMMON_ASSUME + ["E1 base address through the hook", "start and size are region-aligned data ranges (documented)", "bcopy: both specs have equal width and region size (its debug assertions)"],
+    "level_text": "Bounded symbolic execution (Kani/CBMC) of the real bulk zero/set/copy paths for all widths and region sizes over every region range inside a 24-byte table slice with arbitrary contents: every field inside the range gets 0 / all-ones / the source field and every bit outside (including the rest of the window) is unchanged, compared bit by bit.",
+    "level_note": "Trusted: Kani/CBMC/cadical and the per-bit oracle loop.",
+}
+
 NOT_APPLICABLE = {}
 _L = ("observable only on a live collector (MMTK instance, mmap'd heap, OS worker threads, VM call-backs); Kani has no thread/FFI model and a "
       "whole collection is outside any unwinding bound; the bit-level kernels are decided under ")
@@ -126,5 +138,5 @@ NOT_APPLICABLE.update({
     "C39": "DESIGN P11: 3 symbolic bytes through to_lowercase/parse/format! exceed 420 s; GCTriggerSelector::from_str compiles two regex::Regex",
 })
 # Claimed in DESIGN.md but not built yet: listed as not applicable until their check exists.
-for _p in ["C08", "C10", "C17", "C18", "C21", "C22", "C24", "C26", "C27", "C28", "C29", "C31", "C34", "C35", "C37", "C38"]:
+for _p in ["C08", "C10", "C17", "C18", "C22", "C24", "C26", "C27", "C28", "C29", "C31", "C34", "C35", "C37", "C38"]:
     NOT_APPLICABLE.setdefault(_p, "check planned in DESIGN.md section 3 but not built yet; not claimed until its harnesses are registered")
